@@ -854,9 +854,17 @@ func (f *File) ShmLoad(off, n int) ([]byte, syscall.Errno) {
 				return nil, e
 			}
 		}
-		sm.mem = append([]byte(nil), data...)
-		sm.valid = true
-		f.k.r.Count("kernel.shm.fault")
+		// Another connection may have faulted the mapping in (and stored into
+		// it) while this one was waiting for its read: the kernel has one copy of
+		// each page and a second fault finds it present. Installing what was
+		// read here would wipe the other connection's stores.
+		if !sm.valid {
+			sm.mem = append([]byte(nil), data...)
+			sm.valid = true
+			f.k.r.Count("kernel.shm.fault")
+		} else {
+			f.k.r.Count("kernel.shm.fault-raced")
+		}
 	}
 	out := make([]byte, n)
 	if off < len(sm.mem) {
